@@ -4,6 +4,7 @@ package main
 // float model. Everything here is part of the trusted base and is listed in evidence.
 
 import (
+	"sort"
 	"fmt"
 	"go/types"
 	"strings"
@@ -376,6 +377,20 @@ func (e *Enc) callExternal(ci ssa.CallInstruction, c *ssa.CallCommon, name strin
 		e.assumed["strings.Split(s, sep) with non-empty sep returns at least one element (trusted)"] = true
 		e.onSplit(ci, r, args[0], args[1])
 		return []Term{r}, nil
+	case "gopkg.in/yaml.v3.Unmarshal":
+		// decoding into the target may write anything reachable from it (and allocate): every
+		// program heap gets a fresh version; ghost state and private locals are untouched
+		var names []string
+		for n := range e.heapSorts {
+			if strings.HasPrefix(n, "F$") || strings.HasPrefix(n, "P$") || strings.HasPrefix(n, "E$") || strings.HasPrefix(n, "M$") || strings.HasPrefix(n, "MD$") || n == "alloc" {
+				names = append(names, n)
+			}
+		}
+		sort.Strings(names)
+		e.havocNames(e.cur, names)
+		e.unmarshalled = true
+		e.assumed["yaml.Unmarshal may store any well-typed value in any heap location (over-approximation of every YAML document, including arbitrary bytes); assumed not to panic (trusted)"] = true
+		return e.freshResults(sig), nil
 	case "strings.Join", "strings.ReplaceAll", "fmt.Sprintf", "fmt.Sprint", "strings.ToLower":
 		return []Term{e.fresh("str", SString)}, nil
 	// ---- errors / fmt
